@@ -397,7 +397,10 @@ func (t *WeightedMerkleTrie) Commit(collapseLevel int) (storage.Batcher, error) 
 			// rolling this commit back must not delete it
 			kept := t.created[:0]
 			for _, h := range t.created {
-				if _, err := t.db.Get(h); err != nil {
+				// only a definite "not found" makes the node new; on any other read
+				// error keep it out of the list, leaking a node is harmless, deleting
+				// one of the checkpoint's nodes on rollback is not
+				if _, err := t.db.Get(h); err != nil && isNotFound(err) {
 					kept = append(kept, h)
 				}
 			}
@@ -621,4 +624,9 @@ func (t *WeightedMerkleTrie) dropRecreatedFromTempDeleted() {
 		}
 	}
 	t.tempDeleted = kept
+}
+
+// isNotFound reports whether a storage read failed because the key does not exist
+func isNotFound(err error) bool {
+	return errors.Is(err, ErrKVNotFound) || err.Error() == ErrKVNotFound.Error()
 }
